@@ -148,11 +148,28 @@ def unwrap_operator(fn):
 INSTRUMENTED = {}
 
 
+class _CaptureHandler(object):
+  pass
+
+
 def init_zygote(lane):
-  from malt.utils import ag_logging
-  ag_logging.warning = _sink_warning
-  ag_logging.log = _sink_log
-  ag_logging.error = _sink_error
+  """malt's logging functions stay real (a change inside them must be
+  visible); their output is captured by a handler on the stdlib root logger.
+  stdlib logging is untraced code, so a logging call is one atomic step and
+  its internal locks are never held across a pre-emption point."""
+  import logging as _logging
+
+  class Capture(_logging.Handler):
+    def emit(self, record):
+      if record.levelno >= _logging.WARNING:
+        # the template only: formatting would call repr() on user objects
+        WARNINGS.append((_get_ident(), str(record.msg)[:60]))
+  root = _logging.getLogger()
+  for h in list(root.handlers):
+    root.removeHandler(h)
+  root.addHandler(Capture())
+  root.setLevel(_logging.WARNING)
+  _logging.raiseExceptions = False
   INSTRUMENTED.update(instrument_operators())
 
 
